@@ -242,7 +242,7 @@ Theorem module_file_shape st m f :
                [SList [Atom "opaque"; Str (prologue_text m)]] ++ List.concat items ++ evs ++
                [SList [Atom "opaque"; Str (epilogue_text m)]]).
 Proof.
-  unfold module_file. intros H. inv_bind H. inv_bind H. inversion H. eauto.
+  unfold module_file. intros H. inv_bind H. inv_bind H. destruct (negb _); [discriminate|]. inversion H. eauto.
 Qed.
 
 (** predefined and extern items emit nothing *)
